@@ -384,6 +384,10 @@ def garbage_collect(endpoints_dir):
 
         except OSError as err:
             if err.errno == errno.ENOENT:
+                if not os.path.islink(link) or os.path.exists(link):
+                    # Not dangling: released since it was listed, and the
+                    # name may belong to another owner by now.
+                    continue
                 _LOGGER.warning('Reclaimed: %r', spec)
                 try:
                     os.unlink(link)
